@@ -618,8 +618,7 @@ package validate
 //@   assume cacheMutex != nil
 //@   requires[C15] r != nil && validRE(reSrc(r))
 //@   modifies ghost("G$held"), ghost("G$published")
-//@   ensures[C15,C05] held(cacheMutex) == old(held(cacheMutex))
-//@   requires[C15,C05] !held(cacheMutex)
+//@   ensures[C15,C05] !held(cacheMutex)
 //@   loop 1 invariant cacheInv(newCache)
 //@   loop 1 invariant !published(newCache)
 //@   loop 1 invariant held(cacheMutex)
